@@ -6,7 +6,7 @@
    blocks back to back in table order, free slots pointing at the end, one block per type); from a
    file that is merely [wf] the code can corrupt data — recorded finding F3b, see C03_wf_not_enough. *)
 From Model Require Import Base Str Fmt Container AFile GFile.
-From Proofs Require Import BaseFacts ContainerFacts ContainerProps GapFacts OrderedDec.
+From Proofs Require Import BaseFacts ContainerFacts ContainerProps GapFacts OrderedDec AddSafe.
 Open Scope Z_scope.
 
 (* one call: the result is again compact, whatever the outcome; the number of slots never changes *)
@@ -126,6 +126,47 @@ Proof.
     specialize (H1 eq_refl). unfold in_file in H1. cbn in H1. lia.
 Qed.
 Print Assumptions C03_wf_not_enough.
+
+(* the soundness conditions are decidable: [soundb] is what the harness has Coq evaluate on the files the library writes *)
+Theorem C03_soundb_decides : forall s, soundb s = true <-> wf s.
+Proof. exact soundb_iff. Qed.
+Print Assumptions C03_soundb_decides.
+
+(* ... and exactly where the boundary lies.  On ANY sound file — blocks in any order, free regions anywhere, unused
+   slots carrying whatever offsets — a successful add_block leaves a sound file if and only if the region the block
+   occupies (it starts at the offset the first unused slot carries) lies behind the table and meets no live block.
+   F3b is the "only if"; the "if" covers the foreign files the ordered-file theorems do not reach (a free region
+   between two live blocks, a writer that maintains only the first free slot). *)
+Theorem C03_add_on_any_sound_file : forall s b c now s' k,
+  wf s -> mem s = tab s -> blk_ok b -> step s (OAdd b c now) = (Done, s') ->
+  find_pos is_unused (tab s) = Some k ->
+  (wf s' <-> base (s_n s) <= e_off (nth_entry k (tab s)) /\ region_free s (e_off (nth_entry k (tab s))) (b_size b)).
+Proof.
+  intros s b c now s' k Hw Hm Hb Hs Hk. cbn [step] in Hs. split.
+  - intros Hw'. now apply (add_sound_only_if s b c now s' k).
+  - intros [H1 H2]. now destruct (add_sound s b c now s' k Hw Hm Hb Hs Hk H1 H2).
+Qed.
+Print Assumptions C03_add_on_any_sound_file.
+
+(* the computable form of the "if", evaluated by the harness on the foreign files it crafts; the open object's table
+   and the slot count come along *)
+Theorem C03_add_safeb_sound : forall s b c now s',
+  wf s -> mem s = tab s -> blk_ok b -> step s (OAdd b c now) = (Done, s') -> add_safeb s (b_size b) = true ->
+  wf s' /\ mem s' = tab s' /\ s_n s' = s_n s.
+Proof. intros s b c now s'. cbn [step]. apply add_sound_b. Qed.
+Print Assumptions C03_add_safeb_sound.
+
+(* non-vacuity: two live blocks with a 10-byte free region between them, the unused slot pointing at it; a 4-byte block
+   goes into the hole and the file stays sound — an 11-byte one may not be added *)
+Example C03_example_free_region :
+  let s := mkS 3 [mkE 11 1 928 2 0 0 0 []; mkE 5 1 940 3 0 0 0 []; mkE 0 0 930 0 0 0 0 []]
+                 [mkE 11 1 928 2 0 0 0 []; mkE 5 1 940 3 0 0 0 []; mkE 0 0 930 0 0 0 0 []]
+                 [1; 1; 0; 0; 0; 0; 0; 0; 0; 0; 0; 0; 2; 2; 2] in
+  orderedb s = false /\ add_safeb s 4 = true /\ add_safeb s 11 = false /\
+  map (fun e => (e_type e, e_off e, e_size e)) (tab (snd (step s (OAdd (mkB 16 1 4 (Some [9; 9; 9; 9]) EValue 0 0) [] 7))))
+  = [(11, 928, 2); (5, 940, 3); (16, 930, 4)] /\
+  data (snd (step s (OAdd (mkB 16 1 4 (Some [9; 9; 9; 9]) EValue 0 0) [] 7))) = [1; 1; 9; 9; 9; 9; 0; 0; 0; 0; 0; 0; 2; 2; 2].
+Proof. cbn zeta. repeat split; vm_compute; reflexivity. Qed.
 
 (* non-vacuity: a compact 3-slot file with two live blocks of different sizes, remove the first,
    add a third: still sound, and the blocks sit where expected *)
